@@ -7,7 +7,7 @@ CHECK = {
     "runs": [dict(r, scale_thorough=st) for r, st in zip(
         three("c01_queue", ["--as", "C02"], scales=(1.0, 1.0, 2.0), tsan_options="report_bugs=0"),
         # thorough budgets are ~45x the quick ones: full scale under TSan ran into the harness' own 3000 s cap
-        (0.12, 0.2, 0.6))],
+        (0.1, 0.1, 0.4))],
     "design_ref": "DESIGN.md §5 C02",
     "technique": "balanced blocking workloads + delays in the waiter/waker windows (futex interposition, hook "
                  "points); progress monitor (stuck rule) with futex-word inspection; timed-pop bounds",
